@@ -105,6 +105,7 @@ func c09(tier string) int {
 	if tier == "thorough" {
 		c09Uniform(run, &totalStates, &totalTrans)
 	}
+	totalTrans += pathExhaustive(run, tier, c09Monitor(run))
 	run.Set("states", totalStates)
 	run.Set("transitions", totalTrans)
 	run.Set("traces_validated_against_impl", totalTrans)
